@@ -879,6 +879,79 @@ Qed.
 Definition psi (s : ms) : nat := (m_send s - m_rcvd s) + m_outst s + 3 * nact (m_status s).
 
 (* ------------------------------------------------------------------ *)
+(* the remaining stream read from the RECEIVE side: walking from any pointer that separates the passed tasks from the window,
+   the slots that are not tasks contribute nothing (they belong to retired workers), so the rest of the walk is the data of
+   the window followed by the walk from the dispatch pointer *)
+Lemma task_slot_dec (gw rd : nat -> nat) r cc : forall n, (exists t, t < n /\ rd t = r /\ gw t = cc) \/ (forall t, t < n -> ~ (rd t = r /\ gw t = cc)).
+Proof.
+  induction n as [|n IH]; [right; intros t Ht; lia|].
+  destruct IH as [(t & T1 & T2)|IH]; [left; exists t; split; [lia | exact T2]|].
+  destruct (Nat.eq_dec (rd n) r) as [E1|E1]; [destruct (Nat.eq_dec (gw n) cc) as [E2|E2]|].
+  - left. exists n. auto.
+  - right. intros t Ht [X1 X2]. destruct (Nat.eq_dec t n) as [->|Hne]; [contradiction | apply (IH t ltac:(lia)); auto].
+  - right. intros t Ht [X1 X2]. destruct (Nat.eq_dec t n) as [->|Hne]; [contradiction | apply (IH t ltac:(lia)); auto].
+Qed.
+
+Lemma gap_nil gw rd a R s r cc : InvC gw rd a R s -> cc < W -> (r < R \/ (r = R /\ cc < m_cyc s)) -> (0 < r \/ cyc0 <= cc) ->
+  (forall t, t < m_send s -> ~ (rd t = r /\ gw t = cc)) -> dat B cc r = [].
+Proof.
+  intros H Hcc Hlt Hbase Hno. apply dat_nil.
+  destruct (c_d _ _ _ _ _ H cc Hcc) as (D1 & _ & D3).
+  assert (a0 cc <= r) as Ha by (unfold a0; destruct (Nat.ltb_spec cc cyc0); lia).
+  assert (dsp a s cc <= r) as Hd.
+  { destruct (Nat.le_gt_cases (dsp a s cc) r) as [Hle|Hgt]; [exact Hle|exfalso].
+    destruct (D1 r ltac:(lia)) as (t & T1 & T2 & T3). apply (Hno t T1). auto. }
+  destruct (act s cc); [exfalso; revert D3 Hd Hlt; b2n_tac | lia].
+Qed.
+
+Lemma walk_rest gw rd a R s : InvC gw rd a R s -> forall m r cc k,
+  m = (R - r) * W + m_cyc s - cc -> (r < R \/ (r = R /\ cc <= m_cyc s)) -> cc < W -> (0 < r \/ cyc0 <= cc) -> k <= m_send s ->
+  (forall t, k <= t < m_send s -> r < rd t \/ (r = rd t /\ cc <= gw t)) ->
+  (forall t, t < k -> rd t < r \/ (rd t = r /\ gw t < cc)) ->
+  refsuf W B r cc = wdat gw rd k (m_send s) ++ refsuf W B R (m_cyc s).
+Proof.
+  intros H. pose proof (c_cyc _ _ _ _ _ H) as Hcyc. set (n := m_send s) in *.
+  induction m as [m IHm] using lt_wf_ind. intros r cc k Em Hle Hcc Hbase Hkn Hge Hlt.
+  assert ((r = R /\ cc = m_cyc s) \/ (r < R \/ (r = R /\ cc < m_cyc s))) as [[ER EC]|Hstrict] by lia.
+  - (* the walk has reached the dispatch pointer: the window is empty *)
+    subst r cc. assert (k = n) as ->.
+    { destruct (Nat.eq_dec k n) as [E|NE]; [exact E|exfalso]. specialize (Hge k ltac:(lia)).
+      pose proof (c_gw _ _ _ _ _ H k ltac:(fold n; lia)) as Hg.
+      destruct (c_d _ _ _ _ _ H (gw k) Hg) as (_ & D2 & D3). specialize (D2 k ltac:(fold n; lia) eq_refl).
+      assert (dsp a s (gw k) <= cnt R (m_cyc s) (gw k)) as Hc by (destruct (act s (gw k)); lia).
+      revert D2 Hc Hge. generalize (dsp a s (gw k)). intros x. b2n_tac. }
+    unfold wdat. rewrite Nat.sub_diag. reflexivity.
+  - all: rewrite (refsuf_step W B HW r cc Hcc).
+    all: set (r1 := if S cc =? W then S r else r); set (c1 := if S cc =? W then 0 else S cc).
+    all: assert ((if S cc =? W then refsuf W B (S r) 0 else refsuf W B r (S cc)) = refsuf W B r1 c1) as -> by (unfold r1, c1; destruct (S cc =? W); reflexivity).
+    all: assert (c1 < W) as Hc1 by (unfold c1; destruct (Nat.eqb_spec (S cc) W); lia).
+    all: assert (0 < r1 \/ cyc0 <= c1) as Hb1 by (unfold r1, c1; destruct (Nat.eqb_spec (S cc) W); lia).
+    all: assert (r1 < R \/ (r1 = R /\ c1 <= m_cyc s)) as Hle1 by (unfold r1, c1; destruct (Nat.eqb_spec (S cc) W); lia).
+    all: assert ((R - r1) * W + m_cyc s - c1 < m) as Hm1
+      by (rewrite Em; unfold r1, c1; destruct (Nat.eqb_spec (S cc) W) as [EW|NW]; [replace (R - r) with (S (R - S r)) by lia; nia | nia]).
+    all: destruct (task_slot_dec gw rd r cc n) as [(t & T1 & T2 & T3)|Hno].
+    all: try (
+      (* the slot is a task: it is the first task of the window *)
+      assert (t = k) as -> by (
+        destruct (Nat.lt_trichotomy t k) as [Hl|[E|Hg]]; [specialize (Hlt t Hl); lia | exact E |];
+        specialize (Hge k ltac:(lia)); pose proof (c_mono _ _ _ _ _ H k t Hg ltac:(fold n; lia)); lia);
+      rewrite (wdat_cons gw rd k n) by lia; rewrite T2, T3, <- app_assoc; f_equal;
+      apply (IHm _ Hm1 r1 c1 (S k) eq_refl Hle1 Hc1 Hb1 ltac:(lia));
+      [ intros t' Ht'; pose proof (c_mono _ _ _ _ _ H k t' ltac:(lia) ltac:(fold n; lia)) as M; rewrite T2, T3 in M;
+        unfold r1, c1; destruct (Nat.eqb_spec (S cc) W); pose proof (c_gw _ _ _ _ _ H t' ltac:(fold n; lia)); lia
+      | intros t' Ht'; destruct (Nat.eq_dec t' k) as [->|Hne];
+        [ rewrite T2, T3; unfold r1, c1; destruct (Nat.eqb_spec (S cc) W); lia
+        | specialize (Hlt t' ltac:(lia)); unfold r1, c1; destruct (Nat.eqb_spec (S cc) W); lia ] ]).
+    all: try (
+      (* not a task: a retired worker's slot *)
+      rewrite (gap_nil gw rd a R s r cc H Hcc ltac:(lia) Hbase Hno); cbn [app];
+      apply (IHm _ Hm1 r1 c1 k eq_refl Hle1 Hc1 Hb1 Hkn);
+      [ intros t' Ht'; specialize (Hge t' Ht'); specialize (Hno t' ltac:(lia));
+        unfold r1, c1; destruct (Nat.eqb_spec (S cc) W); pose proof (c_gw _ _ _ _ _ H t' ltac:(fold n; lia)); lia
+      | intros t' Ht'; specialize (Hlt t' Ht'); unfold r1, c1; destruct (Nat.eqb_spec (S cc) W); lia ]).
+Qed.
+
+(* ------------------------------------------------------------------ *)
 (* snapshots: the queue of main-process snapshots always holds an entry for the task that will be handed out at a snapshot
    boundary, so the alignment assertion of _take_snapshot cannot fire.  y is the number of batches handed out so far
    (m_ny, or m_ny + 1 between the moment a batch leaves the window and the moment _num_yielded is incremented). *)
